@@ -2044,7 +2044,11 @@ impl Sim {
             // because nothing can be committed without that follower (finding F15)
             let wedged = running(self).iter().any(|&k| {
                 let r = &self.nodes[k].rn.as_ref().unwrap().raft;
-                r.state != StateRole::Leader && r.pending_request_snapshot != 0 && running(self).iter().all(|&j| self.nodes[j].app.index < r.pending_request_snapshot)
+                // … the follower still waits, or it has forgotten its request (restart) while the leader's Progress
+                // keeps it: the leader sends that peer nothing but the snapshot it cannot produce
+                (r.state != StateRole::Leader && r.pending_request_snapshot != 0 && running(self).iter().all(|&j| self.nodes[j].app.index < r.pending_request_snapshot))
+                    || (r.state == StateRole::Leader
+                        && r.prs().iter().any(|(id, p)| *id != r.id && p.pending_request_snapshot != 0 && running(self).iter().all(|&j| self.nodes[j].app.index < p.pending_request_snapshot)))
             });
             let head = if wedged { "wedged by a pending snapshot request (a follower refuses appends until it gets a snapshot at an index that cannot be committed without it)" } else { "no convergence" };
             self.violate("C10", format!("{} after {} fault-free rounds (60 election timeouts) with all members {:?} running: {}", head, bound, members, desc.join(" ")));
